@@ -54,7 +54,10 @@ def views(p, analysis):
         "ast": safe(lambda: sdump(p.ast)),
         "properties": safe(lambda: (len(p.properties.imports), len(p.properties.calls),
                                     len(p.properties.non_setstate_calls),
-                                    tuple(sorted(p.properties.likely_safe_imports)))),
+                                    # (normally names; an AST node when the import target is not a plain name: compared
+                                    #  by structure, never by identity)
+                                    tuple(sorted(x if isinstance(x, str) else sdump(x) if hasattr(x, "_fields") else repr(x)
+                                                 for x in p.properties.likely_safe_imports)))),
         "has": safe(lambda: (p.has_import, p.has_call, p.has_non_setstate_call)),
         "imports": safe(lambda: (tuple(_modname(n) for n in p.unsafe_imports()),
                                  tuple(_modname(n) for n in p.non_standard_imports()))),
